@@ -158,6 +158,10 @@ class HarnessError(Exception):
     Never reported as a violation of a property: exit status 2."""
 
 
+class PassThrough(Exception):
+    """Harness control-flow exceptions that must cross the code under test untouched (never a verdict)."""
+
+
 class SimCrash(Exception):
     """Injected crash of a peer (C13)."""
 
